@@ -111,7 +111,13 @@ func CacheDir() string {
 	case "windows":
 		return filepath.Join(os.Getenv("HOMEDRIVE"), os.Getenv("HOMEPATH"), "magefile")
 	default:
-		return filepath.Join(os.Getenv("HOME"), ".magefile")
+		home := os.Getenv("HOME")
+		if home == "" {
+			// a relative ".magefile" would put the compiled binaries into the
+			// directory mage is run in
+			return filepath.Join(os.TempDir(), ".magefile")
+		}
+		return filepath.Join(home, ".magefile")
 	}
 }
 
